@@ -175,7 +175,7 @@ def handleGen (j : Json) : Json :=
     match load (jfiles j) ((jopt j "project_file").getD "laze-project.yml") st.buildDir with
     | .error e => lerrJ e
     | .ok (bag, files) =>
-      match generate (jtable j) (fun _ => 0) st bag args with
+      match generateChecked (jtable j) (fun _ => 0) st bag args with
       | .error e => gerrJ e
       | .ok (.failed errs) =>
         -- a missing evalexpr table entry must be resolved first
